@@ -39,7 +39,24 @@ func testPalette() color.Palette {
 
 func fillBytes(b []uint8, seed int) {
 	for i := range b {
-		b[i] = uint8((i*37 + 11 + seed*101) % 251)
+		b[i] = uint8(i*37 + 11 + seed*101) // 37 is odd: every byte value occurs
+	}
+}
+
+// alphaClass16 gives pixel k one of: pattern, 0, 0xFFFF, 0xFFxx (almost opaque,
+// xx != FF), 0x00xx (almost transparent), 0x8000.
+func alphaClass16(k int, hi, lo *uint8) {
+	switch k % 6 {
+	case 1:
+		*hi, *lo = 0, 0
+	case 2:
+		*hi, *lo = 255, 255
+	case 3:
+		*hi, *lo = 255, uint8(k*53)%255
+	case 4:
+		*hi, *lo = 0, uint8(k*29)|1
+	case 5:
+		*hi, *lo = 0x80, 0
 	}
 }
 
@@ -60,35 +77,29 @@ func newImage(kind string, r image.Rectangle, margin, seed int) (img image.Image
 		m := image.NewRGBA64(pr)
 		fillBytes(m.Pix, seed)
 		for i := 0; i+7 < len(m.Pix); i += 8 {
-			switch (i / 8) % 4 {
-			case 1:
-				m.Pix[i+6], m.Pix[i+7] = 0, 0
-			case 2:
-				m.Pix[i+6], m.Pix[i+7] = 255, 255
-			}
+			alphaClass16(i/8, &m.Pix[i+6], &m.Pix[i+7])
 		}
 		parent, planes = m, func() [][]uint8 { return [][]uint8{m.Pix} }
 	case "NRGBA64":
 		m := image.NewNRGBA64(pr)
 		fillBytes(m.Pix, seed)
 		for i := 0; i+7 < len(m.Pix); i += 8 {
-			switch (i / 8) % 4 {
-			case 1:
-				m.Pix[i+6], m.Pix[i+7] = 0, 0
-			case 2:
-				m.Pix[i+6], m.Pix[i+7] = 255, 255
-			}
+			alphaClass16(i/8, &m.Pix[i+6], &m.Pix[i+7])
 		}
 		parent, planes = m, func() [][]uint8 { return [][]uint8{m.Pix} }
 	case "RGBA":
 		m := image.NewRGBA(pr)
 		fillBytes(m.Pix, seed)
 		for i := 0; i+3 < len(m.Pix); i += 4 {
-			switch (i / 4) % 4 {
+			switch (i / 4) % 6 {
 			case 1:
 				m.Pix[i+3] = 0
 			case 2:
 				m.Pix[i+3] = 255
+			case 3:
+				m.Pix[i+3] = 254
+			case 4:
+				m.Pix[i+3] = 1
 			}
 		}
 		parent, planes = m, func() [][]uint8 { return [][]uint8{m.Pix} }
@@ -96,11 +107,15 @@ func newImage(kind string, r image.Rectangle, margin, seed int) (img image.Image
 		m := image.NewNRGBA(pr)
 		fillBytes(m.Pix, seed)
 		for i := 0; i+3 < len(m.Pix); i += 4 {
-			switch (i / 4) % 4 {
+			switch (i / 4) % 6 {
 			case 1:
 				m.Pix[i+3] = 0
 			case 2:
 				m.Pix[i+3] = 255
+			case 3:
+				m.Pix[i+3] = 254
+			case 4:
+				m.Pix[i+3] = 1
 			}
 		}
 		parent, planes = m, func() [][]uint8 { return [][]uint8{m.Pix} }
